@@ -103,6 +103,9 @@ class DispDouble:
             elif y == "one":
                 out = make_states(["A"], f"{self.name}.y")[0]
                 self.yielded = [out]
+            elif y == "falsy":
+                self.yielded = make_states(["F"], f"{self.name}.y")
+                out = self.yielded[0]
             elif y == "two":
                 self.yielded = make_states(["R", "A2"], f"{self.name}.y")
                 out = list(self.yielded)
